@@ -149,6 +149,28 @@ func derive(r *Rng, doc []byte) []byte {
 			}
 		}
 	}
+	if r.Chance(0.10) {
+		// bytes that other Markdown implementations treat as blank: a line made of
+		// form feeds, vertical tabs, NEL, NBSP, U+2028 ... between lines, or such a
+		// byte next to a line ending
+		pseudo := []string{"\f", "\v", "\f\v ", " \f", "\x1c", "\x1f", "\u0085", "\u00a0", "\u2028", "\u2029", "\u200b", "\x7f", "\x01"}
+		n := r.Range(1, 3)
+		for i := 0; i < n; i++ {
+			at := r.Intn(len(doc) + 1)
+			// move to the next line start
+			for at < len(doc) && at > 0 && doc[at-1] != '\n' && doc[at-1] != '\r' {
+				at++
+			}
+			ins := r.Pick(pseudo)
+			if r.Chance(0.7) {
+				ins += "\n"
+			}
+			if r.Chance(0.4) {
+				ins = "\n" + ins
+			}
+			doc = insertAt(doc, at, []byte(ins))
+		}
+	}
 	if r.Chance(0.15) && len(doc) > 1 {
 		doc = doc[:r.Intn(len(doc))]
 	}
